@@ -72,9 +72,15 @@ def nibs_setup(E):
     return {"nibbles": HM.nibs(E, "nibbles")}
 
 
+def _nib_term(v):
+    if isinstance(v, ListObj) and v.items is not None:
+        v = tuple(v.items)              # a list of nibbles is read like a tuple
+    return ops.seq_term_as(v, "int")
+
+
 def compute_key_cases(leaf):
     def cases(E, ctx):
-        t = ops.seq_term_as(ctx.nibbles, "int")
+        t = _nib_term(ctx.nibbles)
 
         def ret():
             r = z3.simplify(HM.HPK(t, z3.BoolVal(leaf)))
@@ -87,7 +93,7 @@ def compute_key_cases(leaf):
 def compute_key_requires(E, ctx):
     from contracts.seqspec import allnib_of
     from contracts.nibbles_c import B2N
-    t = ops.seq_term_as(ctx.nibbles, "int")
+    t = _nib_term(ctx.nibbles)
     side = []
     ok = allnib_of(t, side, B2N)
     for f in side:
@@ -102,6 +108,7 @@ def register(reg):
     _register_read2(reg)
     _register_store2(reg)
     _register_write(reg)
+    _register_write2(reg)
 
 
 def _register_nodes(reg):
@@ -784,3 +791,143 @@ def _register_write(reg):
     H = HEX + ":HexaryTrie."
     reg.add(g, Contract(H + "_set", ["self", "node", "trie_key", "value"], set_cases, setup=set_setup,
                         requires=set_requires, props=("C01",)))
+
+
+# ---------------------------------------------------------------------------------------------------
+# write path: _normalize_branch_node and _delete
+
+def fresh_branch(E, base="node"):
+    D = z3.Const(E.fresh_name(base + ".D"), HNode)
+    E.assume(mk_bool(z3.And(HNode.is_HBranch(D), HM.hwfp(D))))
+    HM.unfold_wf(E, D)
+    return HM.materialize(E, D), D
+
+
+def nonblank_count(D):
+    n = z3.If(z3.Length(HNode.bval(D)) > 0, 1, 0)
+    for i in range(16):
+        n = n + z3.If(HRef.is_RBlank(HM.child(D, i)), 0, 1)
+    return n
+
+
+def norm_setup(E):
+    t = write_trie(E, pruning=False)
+    node, D = fresh_branch(E)
+    E.assume(mk_bool(nonblank_count(D) >= 1))
+    q0 = HM.nibs(E, "q0")
+    E.ghost["q0"] = q0.t
+    E.ghost["D_old"] = D
+    return {"self": t, "node": node}
+
+
+def norm_requires(E, ctx):
+    D = HM.alpha(ctx.node)
+    return [("branch", mk_bool(HNode.is_HBranch(D))), ("something-left", mk_bool(nonblank_count(D) >= 1)),
+            ("well-formed", mk_bool(HM.hwfp(D)))]
+
+
+def norm_cases(E, ctx):
+    s = ctx.self
+    db = s.fields["db"]
+    node = ctx.node
+    unit_mode = hasattr(ctx, "outcome")
+    Dold = E.ghost["D_old"] if unit_mode else HM.alpha(node)
+    cnt = nonblank_count(Dold)
+
+    def ens(res):
+        Dn = HM.alpha(res)
+        q = E.ghost["q0"]
+        HM.unfold_hlk(E, Dold, q, depth=1)
+        HM.unfold_hlk(E, Dn, q, depth=2)
+        from contracts import seqlemmas as SL
+        for P in ([Dn.arg(0)] if HM.is_constructor(Dn) and Dn.decl().name() in ("HLeaf", "HExt") else []):
+            P = z3.simplify(P)
+            if z3.is_app(P) and P.decl().kind() == z3.Z3_OP_SEQ_CONCAT and P.num_args() == 2:
+                a, b = P.arg(0), P.arg(1)
+                SL.use(E, "prefix_concat", a, b, q)
+                SL.use(E, "eq_concat", a, b, q)
+                SL.use(E, "prefix_unit", a.arg(0), q) if (z3.is_app(a) and a.decl().kind() == z3.Z3_OP_SEQ_UNIT) else None
+                SL.use(E, "tail_tail", q, z3.Length(a), z3.Length(b))
+        HM.unfold_wf(E, Dn)
+        return [("view-preserved", mk_bool(HM.hlk(Dn, q) == HM.hlk(Dold, q))),
+                ("well-formed", mk_bool(HM.hwfp(Dn))), ("not-blank", mk_bool(z3.Not(HNode.is_HBlank(Dn))))]
+
+    def make():
+        Dn = z3.Const(E.fresh_name("norm.D"), HNode)
+        E.assume(mk_bool(z3.And(HM.hwfp(Dn), z3.Not(HNode.is_HBlank(Dn)))))
+        HM.unfold_wf(E, Dn)
+        E.ghost.setdefault("hview_rules2", []).append((Dn, lambda Q: HM.hlk(Dn, Q) == HM.hlk(Dold, Q), Dold))
+        return HM.materialize(E, Dn)
+    return [Case("kept", when=mk_bool(cnt >= 2), returns=lambda: Is(node)),
+            Case("collapsed", when=mk_bool(cnt == 1), ensures=ens if unit_mode else None, make=None if unit_mode else make),
+            Case("missing-node", when=mk_bool(cnt == 1), raises=KeyError)]
+
+
+def del_setup(E):
+    t = write_trie(E, pruning=False)
+    E.ghost["hex_value_slots"] = True
+    D = z3.Const("node.D", HNode)
+    E.assume(mk_bool(HM.hwfp(D)))
+    HM.unfold_wf(E, D)
+    node = HM.materialize(E, D)
+    key = HM.nibs(E, "trie_key")
+    q0 = HM.nibs(E, "q0")
+    E.ghost["q0"] = q0.t
+    E.ghost["D_old"] = D
+    return {"self": t, "node": node, "trie_key": key}
+
+
+def del_requires(E, ctx):
+    from contracts.seqspec import allnib_of
+    from contracts.nibbles_c import B2N
+    D = HM.alpha(ctx.node)
+    HM.unfold_wf(E, D)
+    K = ops.seq_term_as(ctx.trie_key, "int")
+    side = []
+    ok = allnib_of(K, side, B2N)
+    for f in side:
+        E.assume(mk_bool(f))
+    return [("node-well-formed", mk_bool(HM.hwfp(D))), ("key-is-nibbles", mk_bool(ok))]
+
+
+def hview_after_del(Dold, K, q):
+    return z3.If(q == K, z3.Empty(SeqI), HM.hlk(Dold, q))
+
+
+def del_cases(E, ctx):
+    s = ctx.self
+    db = s.fields["db"]
+    K = ops.seq_term_as(ctx.trie_key, "int")
+    unit_mode = hasattr(ctx, "outcome")
+    Dold = E.ghost["D_old"] if unit_mode else HM.alpha(ctx.node)
+
+    def ens(res):
+        Dn = HM.alpha(res)
+        q = E.ghost["q0"]
+        HM.unfold_hlk(E, Dold, q, depth=1)
+        HM.unfold_hlk(E, Dn, q, depth=3)
+        _key_pair_facts_hex(E, K, q, Dold)
+        HM.unfold_wf(E, Dn)
+        return [("view", mk_bool(HM.hlk(Dn, q) == hview_after_del(Dold, K, q))), ("well-formed", mk_bool(HM.hwfp(Dn)))]
+
+    def make():
+        Dn = z3.Const(E.fresh_name("_delete.D"), HNode)
+        E.assume(mk_bool(HM.hwfp(Dn)))
+        HM.unfold_wf(E, Dn)
+        E.ghost.setdefault("hview_rules2", []).append((Dn, lambda Q: HM.hlk(Dn, Q) == hview_after_del(Dold, K, Q), Dold))
+        if isinstance(ctx.node, ListObj):
+            ctx.node.items = None
+            ctx.node.seq = None
+        return HM.materialize(E, Dn)
+    mods = [db] + ([ctx.node] if (unit_mode and isinstance(ctx.node, ListObj)) else [])
+    return [Case("updated", ensures=ens if unit_mode else None, make=None if unit_mode else make, modifies=mods),
+            Case("missing-node", raises=KeyError, modifies=mods)]
+
+
+def _register_write2(reg):
+    g = "hexary_write"
+    H = HEX + ":HexaryTrie."
+    reg.add(g, Contract(H + "_normalize_branch_node", ["self", "node"], norm_cases, setup=norm_setup,
+                        requires=norm_requires, props=("C01", "C02")))
+    reg.add(g, Contract(H + "_delete", ["self", "node", "trie_key"], del_cases, setup=del_setup,
+                        requires=del_requires, props=("C01",)))
